@@ -643,9 +643,12 @@ def check(prog, rep):
     if cv is not None:
         check_dispatch_passthrough(prog, rep, 'F7-pass', cv)
     from ..sharedrules import check_values_keep_dtype
-    if m.funcs.get('mean') is not None:
-        check_values_keep_dtype(prog, rep, 'F2-dtype', m.funcs['mean'])
-    rep.floor('F2-dtype', 1)
+    for fn_ in ('mean', 'apply', 'focal_stats', 'hotspots'):
+        if m.funcs.get(fn_) is not None:
+            check_values_keep_dtype(prog, rep, 'F2-dtype', m.funcs[fn_])
+    if cv is not None:
+        check_values_keep_dtype(prog, rep, 'F2-dtype', cv)       # the kernel's weights are the caller's, not the raster's dtype
+    rep.floor('F2-dtype', 4)
     rep.floor('F7-pass', 5)
     rep.floor('H1', 10)
     rep.floor('F1', 6)
